@@ -152,8 +152,44 @@ func c06Commit(c *Ctx) {
 					okIdx := FieldLoadOf("partitionOffsetManager.partition", Same(a[0]))(lk.Index)
 					lk2, isL2 := strip(lk.X).(*ssa.Lookup)
 					ok = okIdx && isL2 && FieldLoadOf("partitionOffsetManager.topic", Same(a[0]))(lk2.Index) && FieldLoadOf("OffsetCommitRequest.blocks", ParamN(2))(lk2.X)
-				} else {
+				} else if ok {
+					// or the other way round: the request's blocks are ranged, and the partition manager is the one
+					// registered under the very keys of the block: for t, bs := range req.blocks { for p, b := range bs {
+					// pom := om.poms[t][p] … pom.updateCommitted(b.offset, b.metadata) } }
 					ok = false
+					mapRangeKV := func(v ssa.Value, idx int) (*ssa.Next, bool) {
+						ex, isEx := strip(v).(*ssa.Extract)
+						if !isEx || ex.Index != idx {
+							return nil, false
+						}
+						nx, isN := ex.Tuple.(*ssa.Next)
+						return nx, isN
+					}
+					rangedOver := func(nx *ssa.Next) ssa.Value {
+						if rg, isR := nx.Iter.(*ssa.Range); isR {
+							return strip(rg.X)
+						}
+						return nil
+					}
+					if inner, ok1 := mapRangeKV(b1, 2); ok1 {
+						if outer, ok2 := mapRangeKV(rangedOver(inner), 2); ok2 && FieldLoadOf("OffsetCommitRequest.blocks", ParamN(2))(rangedOver(outer)) {
+							recv := strip(a[0])
+							if ex, isEx := recv.(*ssa.Extract); isEx && ex.Index == 0 {
+								recv = strip(ex.Tuple)
+							}
+							if lk, isL := recv.(*ssa.Lookup); isL {
+								kp, okp := mapRangeKV(lk.Index, 1)
+								lkx := strip(lk.X)
+								if ex, isEx := lkx.(*ssa.Extract); isEx && ex.Index == 0 {
+									lkx = strip(ex.Tuple)
+								}
+								if lk2, isL2 := lkx.(*ssa.Lookup); isL2 && okp && kp == inner {
+									kt, okt := mapRangeKV(lk2.Index, 1)
+									ok = okt && kt == outer && FieldLoad("offsetManager.poms")(lk2.X)
+								}
+							}
+						}
+					}
 				}
 			}
 			c.Check(ok, rule, fn, "ack-from-request-block", s.Instr(), "updateCommitted(offset, metadata) of req.blocks[pom.topic][pom.partition]",
